@@ -57,7 +57,7 @@ class ARunner:
             op = await self.next_op()
             if "a" in op and (op["a"] > len(self.env.acts) or self.env.acts[op["a"] - 1] is None):
                 self.env.abort = True
-                self.env.recording = False
+                self.env.freeze()
                 self.done.put_nowait("op")
                 raise _Abort()
             if op["op"] == "Exit":
@@ -152,8 +152,7 @@ async def run_program(env, prog):
         if what == "exit" or env.error:
             env.error = env.error or "context %d ended early" % op["c"]
             break
-    env.recording = False
-    env.snapshot = {d: f.getvalue() for d, f in env.files.items()}
+    env.freeze()
     for r in list(env.runners.values()):
         r.inbox.put_nowait(None)
     await asyncio.gather(*[r.task for r in env.runners.values() if r.task is not None], return_exceptions=True)
